@@ -298,13 +298,45 @@ fn builder_corner_cases(rep: &mut Report) {
                 }
             }
         }
+        // will_message() called twice: the second call replaces the first
+        {
+            use mqtt_protocol_core::mqtt::packet::Qos;
+            let b5 = pk::v5_0::Connect::builder().client_id("c").unwrap().will_message("w", b"x".to_vec(), Qos::AtLeastOnce, true).unwrap().will_message("w", b"x".to_vec(), Qos::ExactlyOnce, false).unwrap().build();
+            if let Ok(c) = b5 {
+                let bytes = c.to_continuous_buffer();
+                if let Framed::Frame { body, .. } = rc::frame_one(&bytes) {
+                    match pk::v5_0::Connect::parse(&body) {
+                        Ok((p2, n)) => {
+                            if p2 != c || n != body.len() || c.will_qos() != Qos::ExactlyOnce || c.will_retain() {
+                                out.push(("will-message-twice".into(), format!("v5.0 CONNECT built with will_message(QoS 1, retain) then will_message(QoS 2, no retain): flags byte {:#04x}, will_qos() {:?}, will_retain() {}", body[7], c.will_qos(), c.will_retain())));
+                            }
+                        }
+                        Err(e) => out.push(("will-message-twice".into(), format!("v5.0 CONNECT built with will_message(QoS 1, retain) then will_message(QoS 2, no retain) has Connect Flags {:#04x}; its own parser rejects it: {e:?}", body[7]))),
+                    }
+                }
+            }
+            let b4 = pk::v3_1_1::Connect::builder().client_id("c").unwrap().will_message("w", b"x".to_vec(), Qos::AtLeastOnce, true).unwrap().will_message("w", b"x".to_vec(), Qos::ExactlyOnce, false).unwrap().build();
+            if let Ok(c) = b4 {
+                let bytes = c.to_continuous_buffer();
+                if let Framed::Frame { body, .. } = rc::frame_one(&bytes) {
+                    match pk::v3_1_1::Connect::parse(&body) {
+                        Ok((p2, n)) => {
+                            if p2 != c || n != body.len() || c.will_qos() != Qos::ExactlyOnce || c.will_retain() {
+                                out.push(("will-message-twice-v4".into(), format!("v3.1.1 CONNECT built with will_message twice: flags byte {:#04x}", body[7])));
+                            }
+                        }
+                        Err(e) => out.push(("will-message-twice-v4".into(), format!("v3.1.1 CONNECT built with will_message(QoS 1, retain) then will_message(QoS 2, no retain) has Connect Flags {:#04x}; its own parser rejects it: {e:?}", body[7]))),
+                    }
+                }
+            }
+        }
         out
     });
     rep.count("c02.builder-corner-cases", 1);
     match r {
         Ok(v) => {
             for (class, d) in v {
-                rep.violation(Violation { rule: "c02.roundtrip".into(), sig: format!("c02.roundtrip|CONNECT|v5|{class}"), detail: d, config: "codec builder corner cases".into(), history: vec![json!(class)] });
+                rep.violation(Violation { rule: "c02.roundtrip".into(), sig: format!("c02.roundtrip|CONNECT|{}|{class}", if class.ends_with("-v4") { "v4" } else { "v5" }), detail: d, config: "codec builder corner cases".into(), history: vec![json!(class)] });
             }
         }
         Err(m) => rep.violation(Violation { rule: "c02.panic".into(), sig: format!("c02.panic|corner|{}", crate::util::panic_sig(&m)), detail: m, config: "codec builder corner cases".into(), history: vec![] }),
